@@ -81,3 +81,15 @@ Proof. exact uint64_roundtrip_l. Qed.
 Theorem uint_short : forall b, (consume_uint32 b = None <-> (length b < 4)%nat) /\ (consume_uint64 b = None <-> (length b < 8)%nat).
 Proof. exact uint_short_l. Qed.
 Print Assumptions uint64_roundtrip.
+
+(** the encoding is prefix-free: varint-framed fields laid end to end parse in exactly one way *)
+Theorem append_varint_prefix_free : forall v1 v2 e1 e2 r1 r2,
+  v1 <= max_varint -> v2 <= max_varint ->
+  append_varint [] v1 = Ok e1 -> append_varint [] v2 = Ok e2 ->
+  e1 ++ r1 = e2 ++ r2 -> v1 = v2 /\ e1 = e2 /\ r1 = r2.
+Proof. exact append_varint_prefix_free_l. Qed.
+Print Assumptions append_varint_prefix_free.
+Theorem append_varint_injective : forall v1 v2 e, v1 <= max_varint -> v2 <= max_varint ->
+  append_varint [] v1 = Ok e -> append_varint [] v2 = Ok e -> v1 = v2.
+Proof. exact append_varint_injective_l. Qed.
+Print Assumptions append_varint_injective.
